@@ -119,24 +119,37 @@ func VF_Airgapped_Commits() {
 	vf.Assert("witness", false)
 }
 
-// vfOpenMachine: a machine on a state directory (reopening the same directory = restart).
-func vfOpenMachine(dir string) *Machine {
+// vfOpenMachine: a machine on a state directory. first: the operator enters the mnemonic (set_seed) and generates the keys;
+// otherwise (a restart on the same directory) the machine is brought up the way cmd/airgapped does it: NewMachine loads
+// the stored base seed, the password unlocks the stored keys (InitKeys) - the mnemonic is NOT entered again.
+func vfOpenMachine(dir string, prev *Machine) *Machine {
 	am, err := NewMachine(dir)
 	if err != nil {
 		panic(err)
 	}
 	am.SetResultFolder(dir)
 	if vf.Symbolic() {
-		if err := am.SetBaseSeed(vfMnemonic); err != nil {
-			panic(err)
+		if prev == nil {
+			if err := am.SetBaseSeed(vfMnemonic); err != nil {
+				panic(err)
+			}
+			am.secKey = am.baseSuite.Scalar().Pick(am.baseSuite.RandomStream())
+			am.pubKey = am.baseSuite.Point().Mul(am.secKey, nil)
+			return am
 		}
-		am.secKey = am.baseSuite.Scalar().Pick(am.baseSuite.RandomStream())
-		am.pubKey = am.baseSuite.Point().Mul(am.secKey, nil)
+		// the encrypted key store (scrypt/AES-GCM/gob) is outside the executor: the stored keys are the ones generated before
+		am.secKey, am.pubKey = prev.secKey, prev.pubKey
 		return am
 	}
 	am.SetEncryptionKey([]byte("password"))
-	if err := am.SetBaseSeed(vfMnemonic); err != nil {
-		panic(err)
+	if prev == nil {
+		if err := am.SetBaseSeed(vfMnemonic); err != nil {
+			panic(err)
+		}
+		if err := am.GenerateKeys(); err != nil {
+			panic(err)
+		}
+		return am
 	}
 	if err := am.InitKeys(); err != nil {
 		panic(err)
@@ -191,7 +204,7 @@ func VF_Airgapped_Replay() {
 		other = o
 	}
 	// uninterrupted machine
-	u := vfOpenMachine(dirU)
+	u := vfOpenMachine(dirU, nil)
 	op := vfCommitsOp(u, other, round, t)
 	if _, err := u.ProcessOperation(op, true); err != nil {
 		vf.Assert("commits-step-succeeds", false)
@@ -202,7 +215,7 @@ func VF_Airgapped_Replay() {
 
 	// interrupted machine: where did it stop?
 	stop := vf.Choose("stop", 3) // 0: before the step; 1: step computed, never logged (crash before the log write); 2: after the step was logged
-	c := vfOpenMachine(dirC)
+	c := vfOpenMachine(dirC, nil)
 	opC := vfCommitsOp(c, other, round, t)
 	switch stop {
 	case 1:
@@ -212,7 +225,7 @@ func VF_Airgapped_Replay() {
 	}
 	_ = c.db.Close()
 	// restart: volatile state is gone, the database stays
-	c2 := vfOpenMachine(dirC)
+	c2 := vfOpenMachine(dirC, c)
 	vf.Assert("restart-loses-volatile-state", !vfView(c2, round).Exists)
 	rerr := c2.ReplayOperationsLog(round)
 	if stop == 2 {
